@@ -60,7 +60,13 @@ func topScanWF(intp *Interpreter) bool {
 
 // intpWF adds: the saved procedure starts are non-decreasing positions inside
 // the operand stack.
-//@ define intpWF(intp) = intpWF0(intp) &&
+// cmapSep: the block buffers never share their backing array with a finished table
+//@ define cmapSep(intp) = intp.cmapMappings == nil ||
+//@   ((ref(intp.cmapChars) == 0 || (ref(intp.cmapChars) != ref(intp.cmapMappings.CidChars) && ref(intp.cmapChars) != ref(intp.cmapMappings.BfChars) && ref(intp.cmapChars) != ref(intp.cmapMappings.NotdefChars))) &&
+//@    (ref(intp.cmapRanges) == 0 || (ref(intp.cmapRanges) != ref(intp.cmapMappings.CidRanges) && ref(intp.cmapRanges) != ref(intp.cmapMappings.BfRanges) && ref(intp.cmapRanges) != ref(intp.cmapMappings.NotdefRanges))) &&
+//@    (ref(intp.cmapCodeSpaceRanges) == 0 || ref(intp.cmapCodeSpaceRanges) != ref(intp.cmapMappings.CodeSpaceRanges)))
+
+//@ define intpWF(intp) = intpWF0(intp) && cmapSep(intp) &&
 //@   (forall k :: 0 <= k && k < len(intp.procStart) ==> 0 <= intp.procStart[k] && intp.procStart[k] <= len(intp.Stack)) &&
 //@   (forall k, l :: 0 <= k && k <= l && l < len(intp.procStart) ==> intp.procStart[k] <= intp.procStart[l])
 
@@ -416,3 +422,24 @@ func subOverflows(a, b Integer) bool {
 //@ func cidInit["begincodespacerange"]
 //@ ensures [C07.begin.limit] intp.cmapMappings != nil && old(depth(intp)) >= 1 && isInt(old(top(intp, 0))) && (asInt(old(top(intp, 0))) < 0 || asInt(old(top(intp, 0))) > 100) ==> isPSErr(result, eRangecheck) && depth(intp) == old(depth(intp)) && len(intp.cmapCodeSpaceRanges) == old(len(intp.cmapCodeSpaceRanges))
 //@ ensures [C07.begin.ok] intp.cmapMappings != nil && old(depth(intp)) >= 1 && isInt(old(top(intp, 0))) && 0 <= asInt(old(top(intp, 0))) && asInt(old(top(intp, 0))) <= 100 ==> result == nil && depth(intp) == old(depth(intp)) - 1 && len(intp.cmapCodeSpaceRanges) == int(asInt(old(top(intp, 0)))) && stackFrame(intp, 1)
+
+// endcidchar: on success the pending block (2 operands per entry) is moved, in
+// order and unchanged, to the end of the CidChars table; nothing else changes.
+//@ define cidCharsMoved(intp) = forall k :: 0 <= k && k < old(len(intp.cmapChars)) ==>
+//@   intp.cmapMappings.CidChars[old(len(intp.cmapMappings.CidChars)) + k].Dst == old(intp.Stack[len(intp.Stack) - 2*len(intp.cmapChars) + 2*k + 1]) &&
+//@   isType(old(intp.Stack[len(intp.Stack) - 2*len(intp.cmapChars) + 2*k]), String) &&
+//@   ref(intp.cmapMappings.CidChars[old(len(intp.cmapMappings.CidChars)) + k].Src) == ref(old(intp.Stack[len(intp.Stack) - 2*len(intp.cmapChars) + 2*k]).(String)) &&
+//@   len(intp.cmapMappings.CidChars[old(len(intp.cmapMappings.CidChars)) + k].Src) == len(old(intp.Stack[len(intp.Stack) - 2*len(intp.cmapChars) + 2*k]).(String))
+//@ define cidCharsKept(intp) = forall k :: 0 <= k && k < old(len(intp.cmapMappings.CidChars)) ==> intp.cmapMappings.CidChars[k] == old(intp.cmapMappings.CidChars[k])
+
+//@ func cidInit["endcidchar"]
+//@ ensures [C07.end.underflow] intp.cmapMappings != nil && old(depth(intp)) < 2*old(len(intp.cmapChars)) ==> isPSErr(result, eStackunderflow)
+//@ ensures [C07.end.error] result != nil && old(intp.cmapMappings) != nil ==> len(intp.cmapMappings.CidChars) == old(len(intp.cmapMappings.CidChars)) && depth(intp) == old(depth(intp))
+//@ ensures [C07.end.ok] result == nil ==> depth(intp) == old(depth(intp)) - 2*old(len(intp.cmapChars)) && len(intp.cmapMappings.CidChars) == old(len(intp.cmapMappings.CidChars)) + old(len(intp.cmapChars)) && len(intp.cmapChars) == 0
+//@ ensures [C07.end.entries] result == nil ==> cidCharsMoved(intp)
+//@ ensures [C07.end.kept] result == nil ==> cidCharsKept(intp)
+//@ ensures [C07.end.frame] old(intp.cmapMappings) != nil ==> intp.cmapMappings == old(intp.cmapMappings) && len(intp.cmapMappings.BfChars) == old(len(intp.cmapMappings.BfChars)) && len(intp.cmapMappings.NotdefChars) == old(len(intp.cmapMappings.NotdefChars)) && len(intp.cmapMappings.CidRanges) == old(len(intp.cmapMappings.CidRanges)) && len(intp.cmapMappings.BfRanges) == old(len(intp.cmapMappings.BfRanges)) && len(intp.cmapMappings.NotdefRanges) == old(len(intp.cmapMappings.NotdefRanges)) && len(intp.cmapMappings.CodeSpaceRanges) == old(len(intp.cmapMappings.CodeSpaceRanges))
+//@ loop 1 invariant [C07.end] intp.cmapMappings == old(intp.cmapMappings) && intp.cmapMappings != nil && base == len(intp.Stack) - 2*len(intp.cmapChars) && base >= 0 && len(intp.Stack) == old(len(intp.Stack)) && len(intp.cmapChars) == old(len(intp.cmapChars)) && ref(intp.Stack) == old(ref(intp.Stack)) && off(intp.Stack) == old(off(intp.Stack)) && ref(intp.cmapChars) == old(ref(intp.cmapChars)) && off(intp.cmapChars) == old(off(intp.cmapChars))
+//@ loop 1 invariant [C07.end] forall k :: 0 <= k && k < len(intp.Stack) ==> intp.Stack[k] == old(intp.Stack[k])
+//@ loop 1 invariant [C07.end] len(intp.cmapMappings.CidChars) == old(len(intp.cmapMappings.CidChars)) && (forall k :: 0 <= k && k < len(intp.cmapMappings.CidChars) ==> intp.cmapMappings.CidChars[k] == old(intp.cmapMappings.CidChars[k]))
+//@ loop 1 invariant [C07.end] forall k :: 0 <= k && k < i ==> intp.cmapChars[k].Dst == intp.Stack[base+2*k+1] && isType(intp.Stack[base+2*k], String) && ref(intp.cmapChars[k].Src) == ref(intp.Stack[base+2*k].(String)) && len(intp.cmapChars[k].Src) == len(intp.Stack[base+2*k].(String))
